@@ -5,6 +5,7 @@ package main
 
 import (
 	"fmt"
+	"math"
 	"os"
 	"strings"
 
@@ -240,6 +241,25 @@ func (r *feedRun) compare() string {
 			if t, ok := got.(*dummy.T); !ok || t == nil || t.ID != m.get(off) {
 				return fmt.Sprintf("Get(%d)=%v, model item %d", off, got, m.get(off))
 			}
+		}
+	}
+	// offsets near the ends of the integers name no position: nothing is there, and asking
+	// for what is there must be refused like for any other empty position
+	for _, off := range []int{math.MinInt, math.MinInt + 1, math.MinInt / 2, -1 << 32, 1 << 32, math.MaxInt / 2, math.MaxInt - 1, math.MaxInt} {
+		if r.real.Contains(off) {
+			return fmt.Sprintf("Contains(%d)=true, the model holds %d items", off, len(m.seq))
+		}
+		panicked := func() (p bool) {
+			defer func() {
+				if recover() != nil {
+					p = true
+				}
+			}()
+			_ = r.real.Get(off)
+			return false
+		}()
+		if !panicked {
+			return fmt.Sprintf("Get(%d) answered although nothing is there", off)
 		}
 	}
 	if m.contains(0) {
